@@ -25,7 +25,7 @@ DefNames == {"m", "when", "do-mac"}       \* "when", "do-mac": core macros (the 
 Core == {"when", "do-mac"}
 \* the source module S defines a, b, _c; with ExportOnlyA it declares _hy_export_macros = [a]
 SrcMacros == {"a", "b", "_c"}
-Shapes == {"plain", "as", "list", "star", "plain-exp", "star-exp"}
+Shapes == {"plain", "as", "list", "star", "plain-exp", "star-exp", "star-empty"}
 \* names a require brings in, as (new name, source macro) pairs
 Brings(shape) ==
   CASE shape = "plain" -> {<<"S.a", "a">>, <<"S.b", "b">>}             \* exports: no leading underscore
@@ -34,6 +34,7 @@ Brings(shape) ==
     [] shape = "star" -> {<<"a", "a">>, <<"b", "b">>}
     [] shape = "plain-exp" -> {<<"S2.a", "a">>}                         \* S2 has _hy_export_macros = ["a"]
     [] shape = "star-exp" -> {<<"a", "a">>}
+    [] shape = "star-empty" -> {}                                      \* S3 has _hy_export_macros = []: nothing
 CallNames == {"m", "when", "do-mac", "a", "b", "bb", "_c", "S.a", "S.b", "p.a", "p.b", "S2.a", "S2.b", "S._c"}
 SrcTag(s) == CASE s = "a" -> 901 [] s = "b" -> 902 [] s = "_c" -> 903
 CoreTag == 999
